@@ -135,7 +135,7 @@ Fixpoint replay (s : ostate) (ops : list (op * option expect * bool)) (os : list
    is one critical section, so the close comes after it *)
 Definition roG : roster := mkRo 1 [mkMem 1 true; mkMem 4 true; mkMem 2 true].
 Definition race_ping (tree round : nat) : op :=
-  Recv 1 false false (MProto (Some (mkTok 1 tree 1 0 round 1)) (Some (mkTok 1 tree 1 0 round 4)) BPing).
+  Recv 1 false false (MProto (Some (mkTok 1 tree 1 0 round 1)) (Some (mkTok 1 tree 1 0 round 4)) BPing 0).
 Definition race_ops (variant : nat) : list op :=
   let t1 := LocalTree (mkTree 1 roG (TM 1 1 [TM 4 4 []; TM 2 2 []])) in
   match variant with
